@@ -8,8 +8,9 @@ namespace Text
 variable {σ : Type}
 
 /-- The editing operations covered by the history theorem.  (`divide`, `split`, slices, `join`,
-`expand_tabs`, `truncate`, `align` are modelled and tied to rich by the correspondence, their
-invariant proofs are the open obligations listed in `Props/C05.lean`.) -/
+`expand_tabs`, `truncate`, `align` are modelled and tied to rich by the correspondence; their
+invariant proofs were added since, over the full operation set `OpX` of `Lemmas/TextHistory2.lean`:
+`inv_step_all`, `inv_history_all`, `inv_join`, `inv_assemble` in `Props/C05.lean`.) -/
 inductive Op (σ : Type) where
   | appendStr (s : List Char) (style : Option σ)        -- `append(str, style)`
   | appendT (u : Text σ)                                -- `append(Text)`
